@@ -519,4 +519,137 @@ theorem chunk_switch_to_upsampling_aligned (cfg : Cfg ρ) (olen0 : Nat) (l : Loo
   exact (show Quad (chunkFinish l true (true && negLeftShift A.1 (-1)) _).st.cur
     (chunkFinish l true (true && negLeftShift A.1 (-1)) _).st.fo by rw [e1, e2]; exact k2)
 
+/-! ### The fade from the up-sampling stage up to stage 0, at a constant ratio
+
+The new current stream (stage 0, `poly_fir_fade_d`, run first) is the old one floored: clock `>> 1`, increment `>> 2`.
+The fade-out stream (stage −1, `poly_fir_fade_u`) needs ONE sample per output frame, at the position of the pair's
+first sample; the current stream has also placed the pair's second sample, half a frame later, inside the input.
+That half frame (`2·step ≥ 2³²` units) dwarfs the drift between the two clocks (at most 3 units per pair), so the
+fade-out stream always has its sample: aligned, for every chunk of the fade, as long as `step_step = 0`. -/
+
+/-- `f` (up-sampling stream, stage −1) is at most `d` units ahead of `c` (down-sampling stream, stage 0) in half samples,
+    its increment at most 3 units above four times `c`'s; no slew -/
+def NearU (c f : Stream) (d : Int) : Prop :=
+  0 ≤ f.clk - 2 * c.clk ∧ f.clk - 2 * c.clk ≤ d ∧ 0 ≤ f.step - 4 * c.step ∧ f.step - 4 * c.step ≤ 3 ∧
+  c.ss = 0 ∧ f.ss = 0 ∧ f.len = 2 * c.len ∧ 0 ≤ c.step
+
+theorem nearU_add_zero (c f : Stream) (d : Int) (h : NearU c f d) : NearU c f (d + 3 * ((0 : Nat) : Int)) := by
+  simpa using h
+
+theorem fadeUIter_near (n : Nat) : ∀ (c f : Stream) (d : Int), NearU c f d → d + 3 * (n : Int) ≤ 2 * c.step →
+    (fadeUIter f (firDPairs c n).2).2 = (firDPairs c n).2 ∧
+    NearU (firDPairs c n).1 (fadeUIter f (firDPairs c n).2).1 (d + 3 * ((firDPairs c n).2 : Int)) := by
+  induction n with
+  | zero => intro c f d h _; exact ⟨rfl, nearU_add_zero c f d h⟩
+  | succ n ih =>
+    intro c f d h hd
+    have h0 := nearU_add_zero c f d h
+    obtain ⟨h1, h2, h3, h4, h5, h6, h7, h8⟩ := h
+    by_cases a1 : INT c.clk < c.len
+    · by_cases a2 : INT (c.clk + c.step) < c.len
+      · have e : firDPairs c (n + 1) =
+            ((firDPairs { c with clk := c.clk + c.step + c.step, step := c.step + c.ss } n).1,
+             (firDPairs { c with clk := c.clk + c.step + c.step, step := c.step + c.ss } n).2 + 1) := by
+          conv => lhs; unfold firDPairs
+          rw [if_pos a1]; dsimp only; rw [if_pos a2]
+        rw [e]
+        dsimp only
+        have f1 : INT f.clk < f.len := by
+          rw [INT_lt_iff] at a2 ⊢
+          rw [h7]
+          unfold two32 at *
+          push_cast at hd
+          omega
+        have ec : ∀ q, fadeUIter f (q + 1) =
+            ((fadeUIter { f with clk := f.clk + f.step, step := f.step + f.ss } q).1,
+             (fadeUIter { f with clk := f.clk + f.step, step := f.step + f.ss } q).2 + 1) := by
+          intro q
+          conv => lhs; unfold fadeUIter
+          rw [if_pos f1]
+        rw [ec]
+        dsimp only
+        have := ih { c with clk := c.clk + c.step + c.step, step := c.step + c.ss }
+          { f with clk := f.clk + f.step, step := f.step + f.ss } (d + 3)
+          ⟨by show 0 ≤ f.clk + f.step - 2 * (c.clk + c.step + c.step); omega,
+           by show f.clk + f.step - 2 * (c.clk + c.step + c.step) ≤ d + 3; omega,
+           by show 0 ≤ f.step + f.ss - 4 * (c.step + c.ss); omega,
+           by show f.step + f.ss - 4 * (c.step + c.ss) ≤ 3; omega, h5, h6, h7,
+           by show 0 ≤ c.step + c.ss; omega⟩
+          (by show d + 3 + 3 * (n : Int) ≤ 2 * (c.step + c.ss); push_cast at hd; omega)
+        refine ⟨by rw [this.1], ?_⟩
+        have e3 : d + 3 * (((firDPairs { c with clk := c.clk + c.step + c.step, step := c.step + c.ss } n).2 + 1 : Nat) : Int) =
+            d + 3 + 3 * ((firDPairs { c with clk := c.clk + c.step + c.step, step := c.step + c.ss } n).2 : Int) := by
+          push_cast; omega
+        rw [e3]
+        exact this.2
+      · have e : firDPairs c (n + 1) = (c, 0) := by
+          conv => lhs; unfold firDPairs
+          rw [if_pos a1]; dsimp only; rw [if_neg a2]
+        rw [e]
+        exact ⟨rfl, h0⟩
+    · have e : firDPairs c (n + 1) = (c, 0) := by
+        conv => lhs; unfold firDPairs
+        rw [if_neg a1]
+      rw [e]
+      exact ⟨rfl, h0⟩
+
+/-- one chunk of such a fade -/
+theorem fadeStreams_near (c f : Stream) (n : Nat) (d : Int) (hc : c.isD = true) (hf : f.isD = false) (h : NearU c f d)
+    (hd : d + 3 * (((n + 1) / 2 : Nat) : Int) ≤ 2 * c.step) :
+    (fadeStreams c f n).2.2.1 = (fadeStreams c f n).2.2.2 ∧
+    NearU (fadeStreams c f n).1 (fadeStreams c f n).2.1 (d + 3 * (((fadeStreams c f n).2.2.1 / 2 : Nat) : Int)) := by
+  unfold fadeStreams
+  rw [hc, hf]
+  simp only [Bool.and_false, Bool.false_eq_true, if_false, if_true]
+  unfold firD fadeU
+  dsimp only
+  have hN : (2 * (firDPairs c ((n + 1) / 2)).2 + 1) / 2 = (firDPairs c ((n + 1) / 2)).2 := by omega
+  have hM : 2 * (firDPairs c ((n + 1) / 2)).2 / 2 = (firDPairs c ((n + 1) / 2)).2 := by omega
+  rw [hN, hM]
+  obtain ⟨d1, d2⟩ := fadeUIter_near ((n + 1) / 2) c f d h hd
+  exact ⟨by rw [d1], d2⟩
+
+/-- the switch from the up-sampling stage up to stage 0 at a constant ratio starts such a pair, one unit apart at most,
+    with the new increment above `2³¹` -/
+theorem switch_from_upsampling_near (s : St ρ) (occ0 : Int) (hsn : s.cur.sn = -1) (hd : s.cur.isD = false)
+    (hss : s.cur.ss = 0) (hstep : 8589934592 ≤ s.cur.step) (hlen : s.cur.len = shiftr occ0 s.cur.sn) :
+    NearU (switchStage s 1 (switchOcc s 1 occ0)).cur (switchStage s 1 (switchOcc s 1 occ0)).fo 1 ∧
+    (switchStage s 1 (switchOcc s 1 occ0)).cur.isD = true ∧ (switchStage s 1 (switchOcc s 1 occ0)).fo.isD = false ∧
+    (switchStage s 1 (switchOcc s 1 occ0)).fade ≠ 0 ∧ 2147483648 ≤ (switchStage s 1 (switchOcc s 1 occ0)).cur.step := by
+  obtain ⟨_, _, _, _, _, h6, h7, _, _, h10, _, h12, h13, h14⟩ := switchStage_spec s 1 (switchOcc s 1 occ0)
+  have hl := switchStage_len s 1 (switchOcc s 1 occ0)
+  have hocc : switchOcc s 1 occ0 = occ0 := by
+    unfold switchOcc
+    dsimp only
+    rw [switchPrep_sn, hsn, if_neg (by decide)]
+  have hsh : switchShift s 1 = -2 := by
+    unfold switchShift
+    rw [hd, hsn]; decide
+  rw [hsh, lshift_neg_two] at h13 h14
+  rw [lshift_neg_one] at h12
+  refine ⟨⟨?_, ?_, ?_, ?_, by rw [h14, hss]; decide, by rw [h6]; exact hss, ?_, ?_⟩, by rw [h10, hsn]; decide, by rw [h6]; exact hd,
+    by rw [h7]; decide, by rw [h13]; omega⟩
+  · rw [h12, h6]; omega
+  · rw [h12, h6]; omega
+  · rw [h13, h6]; omega
+  · rw [h13, h6]; omega
+  · rw [hl, h6, hlen, hsn, hocc]
+    simp [shiftr]
+    omega
+  · rw [h13]; omega
+
+/-- … and the chunk of the switch, and by `fadeStreams_near` every later chunk of the fade while `step_step = 0`, is aligned -/
+theorem kernels_near (s : St ρ) (olen mn mx : Int) (d : Int) (hfade : s.fade ≠ 0) (hc : s.cur.isD = true) (hf : s.fo.isD = false)
+    (h : NearU s.cur s.fo d) (hd : d + 3 * max 0 (min olen (s.fade / 2)) ≤ 2 * s.cur.step) :
+    (kernels s olen mn mx).mis = false ∧
+    NearU (kernels s olen mn mx).st.cur (kernels s olen mn mx).st.fo (d + 3 * ((kernels s olen mn mx).od : Int)) := by
+  unfold kernels
+  rw [if_pos hfade]
+  dsimp only
+  obtain ⟨a, b⟩ := fadeStreams_near s.cur s.fo (2 * min olen (s.fade / 2)).toNat d hc hf h
+    (by
+      have : ((((2 * min olen (s.fade / 2)).toNat + 1) / 2 : Nat) : Int) = max 0 (min olen (s.fade / 2)) := by omega
+      rw [this]; exact hd)
+  exact ⟨by simp [a], b⟩
+
 end Soxr.Vr
